@@ -2,6 +2,7 @@ import NgoVerif.Generated.Tables
 import NgoVerif.Meta.Bridge
 import NgoVerif.Meta.Agg
 import NgoVerif.Proofs.C05sem
+import NgoVerif.Proofs.StrongEq
 /-!
 # C05 — with every trait disabled the rewrite is meaning-preserving for all predicates
 
@@ -89,14 +90,14 @@ correspondence ties to `normalize.py`) keeps the here-and-there denotation of ev
 aggregate element conditions included — for every environment, HT pair, comparison relation, arithmetic and aggregate
 semantics, provided no *negated* comparison literal has more than one guard.  Equal denotations for all `(H,T)` is
 strong equivalence: facts over any predicate may be added. -/
-theorem C05_normalize_operators_partial (P : Sem.Params) (G : List String) (e : Sem.Env) (H T : Sem.Interp)
+theorem C05_normalize_operators_partial (P : Sem.Params) (G : String → Prop) (e : Sem.Env) (H T : Sem.Interp)
     (b : List BLit) (hok : Proofs.C05sem.okBody b = true) :
     Sem.bodySat P G e H T (normalizeOperators b) ↔ Sem.bodySat P G e H T b :=
   Proofs.C05sem.normalizeOperators_sat P G e H T b hok
 
 /-- … and without that hypothesis the model function does change the denotation (D8): `not 1 < 2 < 0` -/
 theorem C05_normalize_operators_counterexample :
-    ∃ (P : Sem.Params) (G : List String) (e : Sem.Env) (H T : Sem.Interp) (b : List BLit),
+    ∃ (P : Sem.Params) (G : String → Prop) (e : Sem.Env) (H T : Sem.Interp) (b : List BLit),
       ¬ (Sem.bodySat P G e H T (normalizeOperators b) ↔ Sem.bodySat P G e H T b) := by
   let P : Sem.Params := {
     rel := fun op x y => match op, x, y with
@@ -104,10 +105,10 @@ theorem C05_normalize_operators_counterexample :
       | _, _, _ => False
     un := fun _ _ => none, bin := fun _ _ _ => none,
     aggRel := fun _ _ _ _ _ _ => False, oldAggRel := fun _ _ _ _ _ => False }
-  refine ⟨P, [], fun _ => .num 0, fun _ => False, fun _ => False,
+  refine ⟨P, fun _ => False, fun _ => .num 0, fun _ => False, fun _ => False,
     [.lit (.neg, .cmp (.sym (.num 1)) [⟨.lt, .sym (.num 2)⟩, ⟨.lt, .sym (.num 0)⟩])], ?_⟩
   intro h
-  have hb : Sem.bodySat P [] (fun _ => .num 0) (fun _ => False) (fun _ => False)
+  have hb : Sem.bodySat P (fun _ => False) (fun _ => .num 0) (fun _ => False) (fun _ => False)
       [.lit (.neg, .cmp (.sym (.num 1)) [⟨.lt, .sym (.num 2)⟩, ⟨.lt, .sym (.num 0)⟩])] := by
     intro l hl
     simp only [List.mem_singleton] at hl
@@ -117,5 +118,25 @@ theorem C05_normalize_operators_counterexample :
   have h1 := this (.lit (.neg, .cmp (.sym (.num 1)) [⟨.lt, .sym (.num 2)⟩]))
     (by simp [normalizeOperators, expandCmp, cmpList])
   simp [Sem.blitSat, Sem.litSat, Sem.atomSat, Sem.chainHolds, Sem.evalTerm, P] at h1
+
+
+/-- **Program level**: applying `expand_comparisons` to every statement (the third step of `normalize`, as modelled) is
+a *strong equivalence* — same here-and-there models for every head semantics, hence the same answer sets whatever
+statements are added (facts over any predicate) — for programs without a negated multi-guard comparison. -/
+theorem C05_expand_comparisons_strongeq_partial (P : Sem.PParams) (prg : Prog)
+    (hok : ∀ s ∈ prg, Proofs.StrongEq.okStm s = true) :
+    Sem.StrongEq P prg (prg.map expandComparisons) :=
+  Proofs.StrongEq.expandComparisons_strongEq P prg hok
+
+/-- strong equivalence gives equal stable models, also after adding arbitrary statements on both sides -/
+theorem C05_strongeq_answer_sets (P : Sem.PParams) (prg prg' extra : Prog) (h : Sem.StrongEq P prg prg')
+    (T : Sem.Interp) : Sem.Stable P (prg ++ extra) T ↔ Sem.Stable P (prg' ++ extra) T :=
+  Sem.StrongEq.stable P (Sem.StrongEq.append P h extra) T
+
+/-- every objective contributes the same ground tuples after `expand_comparisons` (costs unchanged) -/
+theorem C05_expand_comparisons_costs_partial (P : Sem.PParams) (s : Stm) (hok : Proofs.StrongEq.okStm s = true)
+    (T : Sem.Interp) (x : Sym × Sym × List Sym) :
+    Sem.costTuples P T (expandComparisons s) x ↔ Sem.costTuples P T s x :=
+  Proofs.StrongEq.costTuples_expandComparisons P s hok T x
 
 end NgoVerif
